@@ -24,11 +24,13 @@ import (
 	"bytes"
 	"crypto/sha256"
 	"encoding/hex"
+	"flag"
 	"fmt"
 	"io/fs"
 	"os"
 	"path"
 	"path/filepath"
+	"regexp"
 	"sort"
 	"strings"
 	"sync"
@@ -134,8 +136,7 @@ func recBytes(s string) []byte {
 	if b, ok := recCache.Load(s); ok {
 		return b.([]byte)
 	}
-	m := &record.Meta{}
-	m.Update()
+	m := &record.Meta{Created: 1600000000, Modified: 1600000000} // fixed: file content must not depend on the clock
 	w, err := record.NewWrapper("db:x", m, dsd.JSON, []byte(`{"S":"`+s+`"}`))
 	if err != nil {
 		panic(err)
@@ -413,6 +414,9 @@ func errStr(err error) (string, bool) {
 
 var workDir string // the temp dir of this run
 
+// tempSuffix matches the random suffix of temp file names (os.CreateTemp), so that details are the same in every run.
+var tempSuffix = regexp.MustCompile(`[0-9]{6,}`)
+
 var cwdMu sync.Mutex // held by whoever changes the process working directory
 
 func runCase(cs caseSpec, w *worker) (res caseResult) {
@@ -437,8 +441,7 @@ func runCase(cs caseSpec, w *worker) (res caseResult) {
 		op = func() error {
 			switch cs.Op {
 			case "Put":
-				m := &record.Meta{}
-				m.Update()
+				m := &record.Meta{Created: 1600000000, Modified: 1600000000}
 				r, err := record.NewWrapper("db:"+name, m, dsd.JSON, []byte(`{"S":"put"}`))
 				must(err)
 				_, err = st.Put(r)
@@ -575,7 +578,7 @@ func runCase(cs caseSpec, w *worker) (res caseResult) {
 	sb.insideDirty = dirty
 	// present paths relative to the sandbox so that details do not depend on the temp dir name
 	anon := strings.NewReplacer(sb.S, "{SANDBOX}", workDir, "{WORK}")
-	res.name, res.target, res.err = anon.Replace(res.name), anon.Replace(res.target), anon.Replace(res.err)
+	res.name, res.target, res.err = anon.Replace(res.name), anon.Replace(res.target), tempSuffix.ReplaceAllString(anon.Replace(res.err), "NNN")
 	for i := range res.changes {
 		res.changes[i] = anon.Replace(res.changes[i])
 	}
@@ -763,7 +766,9 @@ func main() {
 			return
 		}
 
-		c.SetBudget(vlib.Pick(c, 150*time.Second, 25*time.Minute))
+		if f := flag.Lookup("budget"); f == nil || f.Value.String() == "0s" {
+			c.SetBudget(vlib.Pick(c, 150*time.Second, 25*time.Minute)) // unless --budget was given
+		}
 		maxSeg := vlib.Pick(c, 4, 5)
 		plain := vlib.Pick(c, [][]string{{"rt"}, {"a", "rt", "rt"}}, [][]string{{"rt"}, {"rt-other", "rt"}, {"a", "rt", "rt"}})
 		unp := vlib.Pick(c,
